@@ -1,0 +1,7 @@
+//go:build !verif
+
+package lungo
+
+func verifPoint(string) {}
+
+func verifTuneUpload(*UploadStream) {}
